@@ -238,6 +238,7 @@ def check(ctx):
     for comp in sccs:
         _check_scc(ctx, prog, cg, comp)
     ctx.floor("R-3", "decode call cycles", len(sccs), 2)
+    _check_followup_cycles(ctx, prog, sccs)
 
     # ---- R-4 loops --------------------------------------------------------------------
     nloops = 0
@@ -673,6 +674,97 @@ def _budget_param(f):
         if f.local_ty(i + 1) == "usize":
             return i
     return None
+
+
+# std traits whose impls for references and containers forward a *receiver* to the same method of the element type
+# (`Default::default()` of a `Vec<T>` builds no T; conversion traits have their own rules)
+FORWARDING_TRAITS = ("core::cmp::PartialEq", "core::cmp::Eq", "core::cmp::PartialOrd", "core::cmp::Ord", "core::clone::Clone",
+                     "core::hash::Hash", "core::fmt::Debug")
+
+
+def _forwarding_targets(prog, c):
+    """a call of a std trait method on a std wrapper of a crate type (`&T == &T`, `Option<T>::eq`, `Vec<T>::clone`,
+    `BTreeSet<T>::cmp`): the std impl forwards to `<T as Trait>::method` of the crate.  Returns those crate functions."""
+    import re
+    tr, name, sty = c.get("trait"), c.get("name"), c.get("self_ty") or ""
+    if not tr or not name or c.get("local") or tr not in FORWARDING_TRAITS:
+        return []
+    out = []
+    for adt in set(re.findall(r"[A-Za-z_][A-Za-z0-9_]*(?:::[A-Za-z_][A-Za-z0-9_]*)+", sty)):
+        k = "<%s as %s>::%s" % (adt, tr, name)
+        if adt in prog.adts and k in prog.fns:
+            out.append(k)
+    return sorted(out)
+
+
+def _receiver_descends(a):
+    """the receiver handed on is a strict part (field / variant payload / element) of the caller's own receiver"""
+    while a[0] in ("ref", "deref") or (is_call(a) and a[1].endswith("::clone") and len(a[2]) == 1):
+        a = a[1] if a[0] in ("ref", "deref") else a[2][0]
+    if a[0] == "phi":
+        return all(_receiver_descends(x) for x in a[1])
+    strict = False
+    while a[0] in ("field", "variant", "ref", "deref", "index", "downcast"):
+        if a[0] in ("field", "variant", "index", "downcast"):
+            strict = True
+        a = a[1]
+    return strict and a == ("param", 0)
+
+
+def _check_followup_cycles(ctx, prog, decode_sccs):
+    """R-3, second half: "re-encoded, cloned, compared ... without panicking either" includes the stack.  Every call cycle of
+    the crate that is NOT one of the decode cycles judged above (encoders, hand-written Clone / PartialEq / Ord impls, helpers)
+    must descend through the data: on every cycle at least one call hands on a strict part of the caller's own receiver, so the
+    depth is bounded by the nesting of the value (which, for a decoded value, the decode budget bounds).  Calls of a std trait
+    method on `&T`, `Option<T>`, `Vec<T>`, ... count as calls of the crate's `<T as Trait>::method` (std forwards to it)."""
+    cg = CallGraph(prog)
+    nfwd = 0
+    for f in prog.real_fns():
+        for bb, t in f.calls():
+            c = t.get("callee") or {}
+            for tgt in _forwarding_targets(prog, c):
+                cg._add(f.key, tgt, "fwd", bb)
+                nfwd += 1
+    ctx.count("std_forwarding_edges", nfwd)
+    ctx.floor("R-3", "std forwarding edges (`&T == &T`, `Vec<T>::clone`, ...) added to the call graph", nfwd, 40)
+    done = [set(c) for c in decode_sccs]
+    n = 0
+    for comp in cg.sccs():
+        compset = set(comp)
+        if any(compset <= d for d in done):
+            continue
+        n += 1
+        problems = []
+        desc = set()
+        same = set()
+        for k in comp:
+            f = prog.fns.get(cg.def_of(k))
+            if f is None or not f.blocks:
+                continue
+            pv = Prov(f)
+            for tgt, sites in cg.edges.get(k, {}).items():
+                if tgt not in compset:
+                    continue
+                for kind, bb in sites:
+                    t = f.blocks[bb]["term"]
+                    if kind in ("call", "cha", "fwd") and t["k"] == "call" and t["args"]:
+                        a = pv.operand_term(t["args"][0], bb, "term")
+                        (desc if _receiver_descends(a) else same).add((k, tgt))
+                    else:
+                        same.add((k, tgt))
+        desc -= same
+        sub = {k: [t for t in cg.succ(k) if t in compset and (k, t) not in desc] for k in comp}
+        if _has_cycle(sub):
+            cyc = sorted("%s -> %s" % e for e in same if e[0] in compset and e[1] in compset)
+            problems.append("a call cycle remains in which no call hands on a strict part of its receiver: " + "; ".join(cyc)[:600])
+        ctx.ob("R-3", "followup-scc:%s" % sorted(comp)[0], not problems,
+               "call cycle {%s} outside the decoders (encode / clone / compare) descends through the value on every round: "
+               "its depth is bounded by the nesting of the data" % ", ".join(sorted(comp)[:6]) + (" ..." if len(comp) > 6 else ""),
+               where=(prog.fns.get(cg.def_of(sorted(comp)[0])).span if prog.fns.get(cg.def_of(sorted(comp)[0])) else None),
+               detail={"problems": problems, "descending_edges": len(desc), "functions": sorted(comp)},
+               sample={"scc": sorted(comp)[:8], "kind": "structural-descent"})
+    ctx.count("followup_sccs", n)
+    ctx.floor("R-3", "call cycles outside the decoders", n, 1)
 
 
 def _check_scc(ctx, prog, cg, comp):
